@@ -37,7 +37,7 @@ theorem bind_out_of_err {x : Res α} {f : α → Res β} {e : Raised} (h : x.out
     (x >>= f).out = .error e := (bind_err h).2
 
 @[simp] theorem pure_bind' (a : α) (f : α → Res β) : (Pure.pure a >>= f) = f a := by
-  simp [bind_def, Res.bind, Pure.pure, Res.pure]
+  simp [bind_def, Res.bind, Pure.pure, Res.ret]
 
 @[simp] theorem raise_bind (e : Raised) (f : α → Res β) : (Res.raise e >>= f) = Res.raise e := by
   simp [bind_def, Res.bind, Res.raise]
